@@ -147,16 +147,58 @@ def _run(prog, chk):
     cp, hp_, kp, cap, calc, pdu = [p["n"] for p in fv.params]
     INVALID = prog.const("KSI_HASHALG_INVALID_VALUE") if "KSI_HASHALG_INVALID_VALUE" in prog.enum_consts else -1
     MISALG, MIS = prog.const("KSI_HMAC_ALGORITHM_MISMATCH"), prog.const("KSI_HMAC_MISMATCH")
-    for conf, calc_ok, eq in itertools.product(("unset", "same", "other"), (1, 0), (1, 0)):
+    from ksirules.bufinterp import BufInterp
+    from ksirules.interp import inline_model
+    IMP = {"equal": ([5, 1, 2, 3], [5, 1, 2, 3]), "differ": ([5, 1, 2, 3], [5, 1, 2, 4]),
+           "differ-in-two-bytes-by-the-same-delta": ([5, 1, 2, 3], [5, 1 ^ 0x5a, 2, 3 ^ 0x5a]), "differ-in-the-first-digest-byte": ([5, 1, 2, 3], [5, 9, 2, 3]),
+           "shorter": ([5, 1, 2, 3], [5, 1, 2])}
+    helpers = {n["fn"] for b, i, n in fv.calls() if n.get("fn") and any(g.unit == fv.unit and g.name != fv.name for g in prog.functions.get(n["fn"], []))}
+    for conf, calc_ok, eqname in itertools.product(("unset", "same", "other"), (1, 0), tuple(IMP)):
+        eq = int(eqname == "equal")
         seen = {"equals": None, "calc": None}
+        recv, comp = IMP[eqname]
 
         def getalg(I, p, node, args):
             I.write(p, lvalue_key(strip(node["a"][1])["e"], I.fn), 5)
             return 0
 
-        def equals(I, p, node, args, eq=eq):
+        def bytes_of(v, I):
+            o = I.as_off(v)
+            if o is None and isinstance(v, Ptr) and v.what in ("received", "computed"):
+                return recv if v.what == "received" else comp
+            if o is not None:
+                return (recv if o.base == "IMPR" else comp)[o.off:]
+            return None
+
+        def equals(I, p, node, args):
             seen["equals"] = args
-            return eq
+            a, b = bytes_of(args[0], I), bytes_of(args[1], I)
+            return TOP if a is None or b is None else int(a == b)
+
+        def memcmp_(I, p, node, args):
+            a, b = bytes_of(args[0], I), bytes_of(args[1], I)
+            if a is None or b is None or not isinstance(args[2], int):
+                return TOP
+            return 0 if a[:args[2]] == b[:args[2]] else 1
+
+        def getimprint(I, p, node, args):
+            which = "IMPR" if args[0] == Ptr("received") else ("IMPC" if args[0] == Ptr("computed") else None)
+            if which is None:
+                return TOP
+            I.write(p, lvalue_key(strip(node["a"][1])["e"], I.fn), Ptr(which))
+            I.write(p, lvalue_key(strip(node["a"][2])["e"], I.fn), len(recv if which == "IMPR" else comp))
+            return 0
+
+        def extract(I, p, node, args):
+            from ksirules.bufinterp import Off
+            which = "IMPR" if args[0] == Ptr("received") else ("IMPC" if args[0] == Ptr("computed") else None)
+            if which is None:
+                return TOP
+            for j, val in ((1, 5), (2, Off(which, 1)), (3, len(recv if which == "IMPR" else comp) - 1)):
+                a = strip(node["a"][j])
+                if isinstance(a, dict) and a.get("k") == "un" and a["op"] == "&":
+                    I.write(p, lvalue_key(a["e"], I.fn), val)
+            return 0
 
         def fallback(I, p, node, name, args, cv, calc_ok=calc_ok):
             if name is None and isinstance(cv, Ptr) and cv.what == "calcfn":
@@ -167,15 +209,22 @@ def _run(prog, chk):
                     return 0
                 return 0x123
             return TOP
-        inputs = {cp: Ptr("ctx"), hp_: Ptr("received"), kp: Ptr("key"), cap: {"unset": INVALID, "same": 5, "other": 1}[conf], calc: Ptr("calcfn"), pdu: Ptr("pdu")}
-        I = Interp(fv, inputs=inputs, call_model=succeed_model(prog, {"KSI_DataHash_getHashAlg": getalg, "KSI_DataHash_equals": equals,
-                                                                       "KSI_getHashAlgorithmName": lambda I, p, n, a: Ptr("nm")}, fallback),
-                   on_unknown="stop", prog=prog)
+        inputs = {cp: Ptr("ctx"), hp_: Ptr("received"), kp: Ptr("key"), cap: {"unset": INVALID, "same": 5, "other": 1}[conf], calc: Ptr("calcfn"), pdu: Ptr("pdu"),
+                  "received->imprint": Ptr("IMPR"), "received->imprint_length": len(recv), "computed->imprint": Ptr("IMPC"), "computed->imprint_length": len(comp)}
+        for k, v in enumerate(recv):
+            inputs["IMPR[%d]" % k] = v
+        for k, v in enumerate(comp):
+            inputs["IMPC[%d]" % k] = v
+        model = succeed_model(prog, {"KSI_DataHash_getHashAlg": getalg, "KSI_DataHash_equals": equals, "memcmp": memcmp_,
+                                     "KSI_DataHash_getImprint": getimprint, "KSI_DataHash_extract": extract,
+                                     "KSI_getHashAlgorithmName": lambda I, p, n, a: Ptr("nm")}, fallback)
+        I = BufInterp(fv, {"IMPR": len(recv), "IMPC": len(comp)}, inputs=inputs, call_model=inline_model(prog, helpers, fallback=model),
+                      on_unknown="stop", prog=prog, loop_bound=8)
         paths = I.run()
         chk.paths += len(paths)
-        inst = "pdu_verifyHmac[configured=%s,calc=%s,digests=%s]" % (conf, "ok" if calc_ok else "error", "equal" if eq else "differ")
+        inst = "pdu_verifyHmac[configured=%s,calc=%s,digests=%s]" % (conf, "ok" if calc_ok else "error", eqname)
         if len(paths) != 1 or paths[0].undetermined:
-            raise AnalysisBroken("pdu_verifyHmac: evaluation not determined for %s" % inst)
+            raise AnalysisBroken("pdu_verifyHmac: evaluation not determined for %s: %s" % (inst, [q.undetermined[:1] for q in paths]))
         r = paths[0].ret
         if conf == "other":
             want = MISALG
@@ -187,11 +236,11 @@ def _run(prog, chk):
             want = 0
         okargs = True
         if want in (0, MIS):
-            okargs = seen["equals"] is not None and set(map(str, seen["equals"])) == {str(Ptr("received")), str(Ptr("computed"))} and \
+            okargs = (seen["equals"] is None or set(map(str, seen["equals"])) == {str(Ptr("received")), str(Ptr("computed"))}) and \
                 seen["calc"] is not None and seen["calc"][0] == Ptr("pdu") and seen["calc"][1] == 5 and seen["calc"][2] == Ptr("key")
         chk.ob("C06.verify", inst, r == want and okargs,
-               "expected %s, source returns %s; MAC recomputed over the PDU with the received algorithm and key and compared with the received MAC: %s"
-               % (hex(want), hex(r) if isinstance(r, int) else r, okargs), loc=fv.loc(), fn=fv)
+               "received imprint %s, recomputed imprint %s: expected %s, source returns %s; MAC recomputed over the PDU with the received algorithm and "
+               "key: %s" % (recv, comp, hex(want), hex(r) if isinstance(r, int) else r, okargs), loc=fv.loc(), fn=fv)
 
     # ------------------------------------------------------------------ authenticated range
     f2 = prog.fn("pdu_calculateHmac_v2", "types.c")
